@@ -1,1 +1,2 @@
-/- C04 — property theorems (stub: the slice is not built yet). -/
+/- C04 — property theorems (in progress). -/
+import GB.C04.Spec
